@@ -176,6 +176,8 @@ def _bexpr(e, atoms, what):
     """boolean Python expression -> Lean Bool text; `atoms` maps the source text of sub-expressions to Lean text,
     string comparisons of a known attribute are given as atoms keyed by (attribute text, constant)"""
     s = ast.unparse(e)
+    if ('truth', s) in atoms:          # a value used for its truthiness (`if self._limit and ...`)
+        return atoms[('truth', s)]
     if s in atoms:
         return atoms[s]
     if isinstance(e, ast.Constant) and isinstance(e.value, bool):
@@ -421,6 +423,47 @@ def generate():
     emit('def copyArrNeeded (policyNone isolate inMulti : Bool) : Bool :=')
     emit('  ' + decision_function(f, atoms, copy_ret, 'copy_arr_if_needed'))
     emit('')
+    # ---------------------------------------------------------------- limit_results (C20)
+    f = find_func(t, 'limit_results')
+    top = [st for st in f.body if isinstance(st, ast.If)]
+    if len(top) != 1 or len(top[0].orelse) != 1 or not isinstance(top[0].orelse[0], ast.If):
+        raise ExtractError('limit_results: expected one `if <limiting> ... elif <randomize> ...`')
+    atoms = {('truth', 'self._limit'): '(limit != 0)', 'self._limit': 'limit', 'len(alloc_request_objs)': 'nRequests',
+             'len(summary_objs)': 'nSummaries',
+             'self._ctx.config.placement.randomize_allocation_candidates': 'randomize'}
+    emit('/-- `limit_results`: does the limit cut the list?  (`limit` = 0 when the request has none) -/')
+    emit('def limitApplies (limit nRequests nSummaries : Nat) : Bool :=')
+    emit('  ' + _bexpr(top[0].test, atoms, 'limit_results'))
+    emit('/-- `limit_results`: when the limit does not cut the list, is it shuffled? -/')
+    emit('def shuffleWhenUnlimited (randomize : Bool) : Bool :=')
+    emit('  ' + _bexpr(top[0].orelse[0].test, atoms, 'limit_results'))
+    # the list expressions of the function (the model `Spec.limitRequests / limitSummaries` is written for exactly these)
+    body = top[0].body
+    inner = body[0] if body and isinstance(body[0], ast.If) else None
+    shape = {
+        'randomize test': ast.unparse(inner.test) if inner is not None else None,
+        'sample': ast.unparse(inner.body[0]) if inner is not None and len(inner.body) == 1 else None,
+        'slice': ast.unparse(inner.orelse[0]) if inner is not None and len(inner.orelse) == 1 else None,
+        'roots from': [ast.unparse(n.iter) for n in ast.walk(top[0]) if isinstance(n, ast.For)],
+        'shuffle': [ast.unparse(b) for b in top[0].orelse[0].body],
+        'returns': [ast.unparse(st.value) for st in f.body if isinstance(st, ast.Return)],
+        'summary filter': [ast.unparse(n.test) for n in ast.walk(top[0]) if isinstance(n, ast.If) and
+                           any(isinstance(b, ast.Continue) for b in n.body)],
+    }
+    expected = {
+        'randomize test': 'self._ctx.config.placement.randomize_allocation_candidates',
+        'sample': 'alloc_request_objs = random.sample(alloc_request_objs, self._limit)',
+        'slice': 'alloc_request_objs = alloc_request_objs[:self._limit]',
+        'roots from': ['alloc_request_objs', 'summary_objs', 'aro.resource_requests'],
+        'shuffle': ['random.shuffle(alloc_request_objs)'],
+        'returns': ['(alloc_request_objs, summary_objs)'],
+        'summary filter': ['rp_root_uuid not in alloc_req_root_uuids'],
+    }
+    if shape != expected:
+        diff = {k: (shape[k], expected[k]) for k in expected if shape[k] != expected[k]}
+        raise ExtractError('limit_results: the list expressions are not the ones the model was written for: %s' % diff)
+    emit('')
+
     t2 = ast.parse(src_of('objects/allocation_candidate.py'))
     f = find_func(t2, '_satisfies_group_policy')
     atoms = {('group_policy', 'isolate'): 'isolate', ('group_policy', 'none'): 'policyNone',
